@@ -71,38 +71,34 @@ class GhostSrc:
 
 def _with_ghost_xarray(fn):
     m = repo(XR)
-    saved = (m.xarray, m._extract_geo_transform)
+    saved = (m.xarray, m._extract_geo_transform, m._mk_crs_coord)
+    real_mk = m._mk_crs_coord
     try:
         m.xarray = _GhostXarray
 
         # the GeoTransform attribute is the transform printed with str(float) and parsed back with
-        # float(): float(repr(x)) == x is ASSUMED of CPython; the ghost keeps the Affine itself
+        # float(): float(repr(x)) == x is ASSUMED of CPython; the ghost CRS coordinate keeps the Affine
+        # object itself next to a placeholder string
+        def mk(crs, name="spatial_ref", gcps=None, transform=None):
+            c = real_mk(crs, name, gcps=gcps, transform=None)  # the string formatting is not run on proxies
+            if transform is not None:
+                c.attrs["GeoTransform"] = "<six numbers>"
+                c.attrs["__ghost_transform__"] = transform
+            return c
+
         def egt(crs_coord):
             return crs_coord.attrs.get("__ghost_transform__", None)
 
+        m._mk_crs_coord = mk
         m._extract_geo_transform = egt
         return fn(m)
     finally:
-        m.xarray, m._extract_geo_transform = saved
+        m.xarray, m._extract_geo_transform, m._mk_crs_coord = saved
 
 
 def _wrap(m, g, crs_coord_name="spatial_ref"):
-    """what wrap_xr / assign_crs attach: the coordinates of xr_coords(g); the ghost CRS coordinate also
-    remembers the transform object behind its GeoTransform string"""
-    real_mk = m._mk_crs_coord
-
-    def mk(crs, name="spatial_ref", gcps=None, transform=None):
-        c = real_mk(crs, name, gcps=gcps, transform=None)  # the string formatting is not run on proxies
-        if transform is not None:
-            c.attrs["GeoTransform"] = "<six numbers>"
-            c.attrs["__ghost_transform__"] = transform
-        return c
-
-    m._mk_crs_coord = mk
-    try:
-        return m.xr_coords(g, crs_coord_name)
-    finally:
-        m._mk_crs_coord = real_mk
+    """what wrap_xr / assign_crs attach: the coordinates of xr_coords(g)"""
+    return m.xr_coords(g, crs_coord_name)
 
 
 def _geobox(shape, A, crs="EPSG:3857"):
@@ -438,4 +434,222 @@ contract(
     trusted_reason="xarray's object model (coordinate / attrs / encoding propagation) and rasterio warping: BOUNDED native check on the real libraries; odc-geo's own label arithmetic is proved by the lemmas of this module",
     native_samples=_xr_samples,
     native_oracle=_xr_oracle,
+)
+
+
+# ---- reprojection: how the output object is assembled (rasterio's warp is a recording ghost) -----------------------------------------
+
+
+class _GhostNumpy:
+    """numpy for the module under proof: real, except that `empty` records the (possibly symbolic) shape"""
+
+    def __init__(self, log):
+        self._log = log
+
+    def __getattr__(self, k):
+        import numpy
+
+        return getattr(numpy, k)
+
+    def empty(self, shape, dtype=None):
+        self._log.append(("empty", tuple(shape), dtype))
+        return ("empty-array", tuple(shape), dtype)
+
+
+class _GhostDAx(GhostDA):
+    """ghost DataArray with the .odc accessor (the REAL accessor class, built on this ghost), shape and dtype"""
+
+    def __init__(self, *a, shape=None, dtype="int16", **k):
+        super().__init__(*a, **k)
+        if shape is not None:  # a data array (coordinate variables keep the shape / values of their labels)
+            self.shape = tuple(shape)
+            self.values = ("values-of", id(self))
+        self.dtype = dtype
+
+    @property
+    def odc(self):
+        return repo(XR).ODCExtensionDa(self)
+
+    def __getitem__(self, k):
+        return self.coords[k]
+
+    def drop_vars(self, names):
+        out = _GhostDAx(None, {k: v for k, v in self.coords.items() if k not in names}, self.dims, self.name, self.attrs, shape=self.shape, dtype=self.dtype)
+        return out
+
+
+class _GhostCoords(dict):
+    pass
+
+
+def _mk_src(m, g, layout, attrs):
+    coords = _wrap(m, g)
+    ny, nx = g.shape.y, g.shape.x
+    dims = {"yx": ("y", "x"), "tyx": ("time", "y", "x"), "yxb": ("y", "x", "band")}[layout]
+    shape = {"yx": (ny, nx), "tyx": (2, ny, nx), "yxb": (ny, nx, 3)}[layout]
+    if layout == "tyx":
+        coords["time"] = GhostDA("time-values", None, ("time",), "time", {})
+    if layout == "yxb":
+        coords["band"] = GhostDA("band-names", None, ("band",), "band", {})
+    coords["y_aux"] = GhostDA("aux-along-y", None, ("y",), "y_aux", {})  # a non-index coordinate riding on a spatial dimension
+    src = _GhostDAx(None, coords, dims, "a", attrs, shape=shape)
+    src.encoding["grid_mapping"] = "spatial_ref"
+    return src
+
+
+def _lemma_reproject_assembly(sny, snx, srx, sry, stx, sty, dny, dnx, drx, dry, dtx, dty, layout, src_nodata, dst_nodata, stale):
+    aff = repo("affine").Affine
+    g = _geobox((sny, snx), aff(srx, 0, stx, 0, sry, sty), "EPSG:32633")
+    dst = _geobox((dny, dnx), aff(drx, 0, dtx, 0, dry, dty), "EPSG:4326")
+    log = []
+    attrs = {"units": "K", "long_name": "temperature"}
+    if stale:
+        attrs.update(crs="EPSG:9999", crs_wkt="stale wkt", epsg=1234, gcps="old", grid_mapping="spatial_ref")
+    if src_nodata is not None:
+        attrs["nodata"] = src_nodata
+
+    def run(m):
+        saved = (m.numpy, m.rio_reproject, m.is_dask_collection)
+        m.xarray.DataArray = _GhostDAx
+        try:
+            m.numpy = _GhostNumpy(log)
+            m.is_dask_collection = lambda x: False
+
+            def warp(src, dst_, s_gbox, d_gbox, **kw):
+                log.append(("warp", src, dst_, s_gbox, d_gbox, kw))
+                return ("warped", dst_)
+
+            m.rio_reproject = warp
+            src = _mk_src(m, g, layout, attrs)
+            out = m._xr_reproject_da(src, dst, resampling="bilinear", dst_nodata=dst_nodata)
+            st = m._locate_geo_info(out)
+            return src, out, st
+        finally:
+            m.numpy, m.rio_reproject, m.is_dask_collection = saved
+            m.xarray.DataArray = GhostDA
+
+    src, out, st = _with_ghost_xarray(run)
+    ydim = {"yx": 0, "tyx": 1, "yxb": 0}[layout]
+    pre, post = src.shape[:ydim], src.shape[ydim + 2 :]
+    empties = [e for e in log if e[0] == "empty"]
+    warps = [e for e in log if e[0] == "warp"]
+    claim(len(empties) == 1 and empties[0][1] == (*pre, dny, dnx, *post) and empties[0][2] == src.dtype, "destination array: the source's non-spatial axes around the destination GeoBox's shape, same dtype")
+    claim(len(warps) == 1 and warps[0][1] == src.values and warps[0][2] == ("empty-array", *empties[0][1:]), "one warp from the source pixels into that array")
+    sg, dg, kw = warps[0][3], warps[0][4], warps[0][5]
+    claim(And(sg.shape.x == snx, sg.shape.y == sny, _same_affine(sg.affine, g.affine)) and sg.crs == g.crs, "... from the source's (recovered) GeoBox")
+    claim(dg is dst, "... to the requested destination GeoBox")
+    want_src_nd = None if src_nodata is None else float(src_nodata)
+    want_dst_nd = dst_nodata if dst_nodata is not None else want_src_nd
+    claim(kw.get("resampling") == "bilinear" and kw.get("ydim") == ydim and kw.get("src_nodata") == want_src_nd and kw.get("dst_nodata") == want_dst_nd, "resampling, Y axis, source nodata (from the attribute) and destination nodata (explicit, else the source's) passed on")
+    # -- the object that comes back
+    claim(out.values == ("warped", ("empty-array", *empties[0][1:])) or out.data == ("warped", ("empty-array", *empties[0][1:])), "the warped array is wrapped")
+    claim(out.dims == (*src.dims[:ydim], "latitude", "longitude", *src.dims[ydim + 2 :]), "dimensions: the destination's spatial dimensions in place of the source's")
+    claim(not any(k in out.attrs for k in ("crs", "crs_wkt", "grid_mapping", "gcps", "epsg")), "stale spatial attributes are removed")
+    claim(out.attrs.get("units") == "K" and out.attrs.get("long_name") == "temperature", "other attributes are kept")
+    if want_dst_nd is None:
+        claim("nodata" not in out.attrs and "_FillValue" not in out.attrs, "no nodata: no nodata attribute")
+    else:
+        claim(out.attrs.get("nodata") == want_dst_nd, "nodata attribute = the destination nodata")
+    claim("y" not in out.coords and "x" not in out.coords and "y_aux" not in out.coords, "every coordinate riding on a source spatial dimension is dropped")
+    claim(all((k in out.coords and out.coords[k] is src.coords[k]) for k in ("time", "band") if k in src.coords), "coordinates of the other dimensions are kept")
+    claim(out.encoding.get("grid_mapping") == "spatial_ref" and out.coords["spatial_ref"] is not src.coords["spatial_ref"], "a fresh CRS coordinate is attached and referenced")
+    r = st.geobox
+    claim(r is not None and And(r.shape.y == dny, r.shape.x == dnx) and bool(_same_affine(r.affine, dst.affine)), "the GeoBox recovered from the result is the requested destination grid")
+    claim(r.crs == dst.crs and r.crs != g.crs, "... CRS included")
+
+
+lemma(
+    "xr.reproject_output_assembly",
+    ["C09"],
+    inputs=dict(
+        sny=Int(ge=2), snx=Int(ge=2), srx=Real(gt=0), sry=Real(lt=0), stx=Real(), sty=Real(),
+        dny=Int(ge=1), dnx=Int(ge=1), drx=Real(gt=0), dry=OneOf(Real(lt=0), Real(gt=0)), dtx=Real(), dty=Real(),
+        layout=OneOf("yx", "tyx", "yxb"), src_nodata=OneOf(None, -9999), dst_nodata=OneOf(None, 255), stale=Bool(),
+    ),
+    body=_lemma_reproject_assembly,
+    unstub=[f"{XR}:xr_coords", f"{MATH}:affine_from_axis", f"{MATH}:data_resolution_and_offset", f"{MATH}:is_affine_st", f"{MATH}:maybe_int"],
+    note="the real _xr_reproject_da on a ghost DataArray (real .odc accessor class on top of it), symbolic source and destination grids; the warp is a recording ghost",
+    max_paths=600,
+)
+
+
+class _GhostDS:
+    """ghost xarray.Dataset: named variables sharing coordinates"""
+
+    def __init__(self, data_vars=None, coords=None, attrs=None):
+        self.data_vars = dict(data_vars or {})
+        self.coords = dict(coords or {})
+        for v in self.data_vars.values():
+            for k, c in getattr(v, "coords", {}).items():
+                self.coords.setdefault(k, c)
+        self.attrs = dict(attrs or {})
+        self.encoding = {}
+        dims = {}
+        for v in self.data_vars.values():
+            for d, n in zip(getattr(v, "dims", ()), getattr(v, "shape", ())):
+                dims[d] = n
+        self.dims = dims
+
+    def __getitem__(self, k):
+        return self.coords[k] if k in self.coords else self.data_vars[k]
+
+    @property
+    def odc(self):
+        return repo(XR).ODCExtensionDs(self)
+
+
+def _lemma_reproject_dataset(sny, snx, how_kind):
+    aff = repo("affine").Affine
+    g = _geobox((sny, snx), aff(10.0, 0, 500000.0, 0, -10.0, 6000000.0), "EPSG:32633")
+    dst = _geobox((3, 4), aff(0.5, 0, 10.0, 0, -0.5, 50.0), "EPSG:4326")
+    calls = []
+
+    def run(m):
+        saved = (m._xr_reproject_da, m.xarray.Dataset, m.xarray.DataArray, m.ODCExtension.output_geobox)
+        try:
+            m.xarray.DataArray = _GhostDAx
+            m.xarray.Dataset = _GhostDS
+
+            def rec(dv, how, **kw):
+                calls.append((dv, how, kw))
+                return ("reprojected", dv.name)
+
+            m._xr_reproject_da = rec
+            m.ODCExtension.output_geobox = lambda self, crs, **kw: (calls.append(("output_geobox", crs, kw)), dst)[1]
+            a = _mk_src(m, g, "yx", {"units": "K", "crs": "stale"})
+            a.name = "a"
+            b = _mk_src(m, g, "tyx", {})
+            b.name = "b"
+            b.coords = dict(b.coords, **{k: a.coords[k] for k in ("y", "x", "spatial_ref")})
+            plain = _GhostDAx(None, {"spatial_ref": a.coords["spatial_ref"]}, ("n",), "plain", {}, shape=(3,))
+            ds = _GhostDS({"a": a, "b": b, "plain": plain}, attrs={"title": "t"})
+            how = dst if how_kind == "geobox" else "EPSG:4326"
+            out = m._xr_reproject_ds(ds, how, resampling="cubic", dst_nodata=7, tight=True)
+            return ds, out, a, b, plain
+        finally:
+            m._xr_reproject_da, m.xarray.Dataset, m.xarray.DataArray, m.ODCExtension.output_geobox = saved
+
+    ds, out, a, b, plain = _with_ghost_xarray(run)
+    og = [c for c in calls if c[0] == "output_geobox"]
+    da = [c for c in calls if c[0] != "output_geobox"]
+    if how_kind == "geobox":
+        claim(og == [], "a GeoBox request is used as is")
+    else:
+        claim(len(og) == 1 and og[0][1] == "EPSG:4326" and og[0][2] == {"tight": True}, "a CRS request: ONE destination GeoBox is computed for the whole Dataset, with the grid options")
+    claim([c[0] for c in da] == [a, b], "every geo-registered variable is reprojected, in order")
+    claim(all(c[1] is dst for c in da), "... all to the same destination GeoBox")
+    claim(all(c[2] == {"resampling": "cubic", "dst_nodata": 7} for c in da), "resampling and nodata passed on, grid options consumed")
+    claim(isinstance(out, _GhostDS) and list(out.data_vars) == ["a", "b", "plain"], "the result is a new Dataset of the same variables")
+    claim(out.data_vars["a"] == ("reprojected", "a") and out.data_vars["b"] == ("reprojected", "b"), "reprojected variables are used exactly as returned: nothing of the source (attributes, coordinates) is copied over them")
+    p = out.data_vars["plain"]
+    claim(isinstance(p, _GhostDAx) and "spatial_ref" not in p.coords and p.dims == ("n",), "variables without a GeoBox pass through, without the stale CRS coordinate")
+
+
+lemma(
+    "xr.reproject_dataset_assembly",
+    ["C09"],
+    inputs=dict(sny=Int(ge=2), snx=Int(ge=2), how_kind=OneOf("geobox", "crs")),
+    body=_lemma_reproject_dataset,
+    unstub=[f"{XR}:xr_coords", f"{MATH}:affine_from_axis", f"{MATH}:data_resolution_and_offset", f"{MATH}:is_affine_st"],
+    note="the real _xr_reproject_ds on a ghost Dataset (real .odc accessor on top of it) with the per-variable reprojection recorded (it is proved by xr.reproject_output_assembly)",
 )
